@@ -523,10 +523,16 @@ class Hist:
         labs = []
         for _ in range(rng.randint(0, 3)):
             labs.append(self.fresh_label(rng, s.net, labs))
+        if rng.random() < 0.03 and '' not in s.net.gates and self.prop not in ('C11', 'C04'):
+            labs.insert(0, '')  # the empty string is a label like any other (not a bench identifier, though)
+            self.res.stats.probes.bump('input-labelled-with-the-empty-string')
         valid = True
-        if rng.random() < self.cfg['p_invalid'] and s.net.gates:
-            labs.append(rng.choice(list(s.net.gates)))
-            valid = False
+        if rng.random() < self.cfg['p_invalid'] and (s.net.gates or labs):
+            if labs and rng.random() < 0.4:
+                labs.append(labs[0])  # the same new label twice within one call
+            elif s.net.gates:
+                labs.append(rng.choice(list(s.net.gates)))
+            valid = len(set(labs)) == len(labs) and not any(l in s.net.gates for l in labs)
         self.call(lambda: s.real.add_inputs(labs), [s], valid, f'#{s.sid}.add_inputs({list(labs)})')
         self.scribble(s, [labs], 'add_inputs')
         self.settle([s])
@@ -593,14 +599,30 @@ class Hist:
         new = self.fresh_label(rng, net)
         valid = True
         if rng.random() < self.cfg['p_invalid']:
-            if rng.random() < 0.5:
+            r = rng.random()
+            if r < 0.4:
                 new = rng.choice(labels)
+            elif r < 0.6:
+                new = old  # a gate "renamed" to its own label
             else:
                 old = '__absent__'
             valid = False
         pre = net.copy()
         pre_users = dict(s.users)
-        self.call(lambda: s.real.rename_gate(old, new), [s], valid, f'#{s.sid}.rename_gate({old!r},{new!r})')
+        if new == old and old in net.gates:
+            # refusing is fine (the label is taken); a call that returns normally is a rename like any other and is
+            # judged as one below: nothing may have moved
+            self.ev['call'], self.ev['valid'] = f'#{s.sid}.rename_gate({old!r},{new!r})', False
+            try:
+                s.real.rename_gate(old, new)
+            except Exception as e:  # noqa
+                self.ev['out'] = f'rejected:{exc_name(e)}'
+                self.quarantine([s], 'rejected')
+                return
+            self.ev['out'] = 'accepted-invalid'
+            self.res.stats.probes.bump('rename-to-the-same-label-accepted')
+        else:
+            self.call(lambda: s.real.rename_gate(old, new), [s], valid, f'#{s.sid}.rename_gate({old!r},{new!r})')
         self.retire(old, pre.gates.get(old, (None,))[0])
         now, nusers = observe.snap(s.real)
         ren = lambda x: new if x == old else x
@@ -1093,6 +1115,28 @@ class Hist:
                 self.res.stats.probes.bump('block-extraction-checked')
         except ModelError as e:
             self.violate('C10', 'block-extraction', f'{side}:uninterpretable', str(e))
+            return
+        # the extracted circuit belongs to the caller: editing it in place must not move the owner of the block, and a
+        # second extraction gives the attached function again
+        try:
+            before, busers = observe.snap(real)
+            if snet.gates:
+                labs = list(snet.gates)
+                sub.mark_as_output(labs[len(labs) // 2])
+                if snet.outputs:
+                    sub.rename_gate(snet.outputs[0], '__renamed_by_the_caller__')
+            after, ausers = observe.snap(real)
+            if not observe.same_view(before, after) or busers != ausers:
+                self.violate('C10', 'block-extraction', f'{side}:extracted-circuit-shares-state-with-the-owner',
+                             'editing the circuit returned by Block.into_circuit() changed the circuit that owns the block')
+                return
+            again, _ = observe.snap(real.get_block(name).into_circuit())
+            if len(again.outputs) != len(o.outputs) or again.tt() != o.tt():
+                self.violate('C10', 'block-extraction', f'{side}:function:second-extraction', 'a second extraction does not compute the attached circuit')
+        except ModelError:
+            pass
+        except Exception as e:  # noqa
+            self.res.stats.probes.bump(f'block-extraction-edit-refused:{exc_name(e)}')
 
     def compose_expect(self, b: Net, o: Net, this_conn, other_conn, right, name, add_prefix):
         """The documented composition, computed on the model: validity of the
